@@ -73,11 +73,21 @@ def find_items(src, selector_norm):
 def nsel(s):
     return norm(tokenize(s))
 
+GHOST_MARK = " //~g"
+def ghost(text):
+    """mark every line of inserted ghost text, so a verifier message can be told apart from one about extracted code"""
+    out = []
+    for l in text.split("\n"):
+        out.append(l + GHOST_MARK if l.strip() else l)
+    return "\n".join(out)
+
 class Edits:
     def __init__(self, base):
         self.base = base
         self.ed = []   # (start, end, text, order)
-    def insert(self, pos, text):
+    def insert(self, pos, text, mark=True):
+        if mark and "\n" in text:
+            text = ghost(text)
         self.ed.append((pos, pos, text, len(self.ed)))
     def replace(self, start, end, text):
         self.ed.append((start, end, text, len(self.ed)))
@@ -252,8 +262,8 @@ def annotate_fn(text, fn_dirs, where, notes):
                 if ct[e].kind == "punct" and ct[e].text in "([":
                     e = match_close(ct, e)
                 e += 1
-            ed.insert(ct[arrow+2].start, f"({arg}: ")
-            ed.insert(ct[e-1].end, ")")
+            ed.insert(ct[arrow+2].start, f"({arg}: ", mark=False)
+            ed.insert(ct[e-1].end, ")", mark=False)
             notes.append({"rule": "R3", "where": where, "name": arg})
         elif nm == "sig":
             ed.insert(ct[sig_end].start, "\n" + payload)
@@ -439,7 +449,7 @@ def process_take(repo, d, sub, report):
             raise Undecided(f"{where0}: directives outside @@fn on an impl/trait")
         bo, bc = it.body_range()
         subitems = split_items(src, ct, bo + 1, bc)
-        parts = [src[ct[first].start:ct[bo].end], "\n", members]
+        parts = [src[ct[first].start:ct[bo].end], "\n", ghost(members)]
         seen = set()
         for si in subitems:
             nm = fn_name_of(si)
@@ -491,10 +501,10 @@ def main():
         while i < len(ds):
             d = ds[i]
             if d["name"] == "raw":
-                out.append(d["text"]); i += 1
+                out.append("// ==== ghost/prelude text begin ====\n" + d["text"] + "// ==== ghost/prelude text end ====\n"); i += 1
             elif d["name"] == "include":
                 inc = os.path.join(os.path.dirname(spec), d["arg"])
-                out.append(open(inc).read()); i += 1
+                out.append("// ==== ghost/prelude text begin ====\n" + open(inc).read() + "// ==== ghost/prelude text end ====\n"); i += 1
             elif d["name"] == "take":
                 j = i + 1
                 while j < len(ds) and ds[j]["name"] not in ("take", "raw", "include"):
